@@ -1,7 +1,7 @@
 #!/bin/sh
 # try_seeded.sh <patch.diff> <ID>...   apply a seeded change to /repo, run the quick checks
 # of the given properties (default: all claimed), and undo the change straight afterwards.
-P=$1; shift
+P=$(realpath "$1"); shift
 IDS=${*:-C05 C06 C10 C11 C14 C16 C17 C18 C20}
 cd /repo || exit 2
 if ! git diff --quiet; then echo "/repo is dirty"; exit 2; fi
